@@ -139,6 +139,33 @@ fn main() {
           Err(_) => println!("lb wait BLOCKED peers={} hook_fired={}", lb.connection_count(), fired.load(std::sync::atomic::Ordering::SeqCst)),
         }
       }
+      "send_multipart_frames" => {
+        // public API only: PUSH socket, send_multipart with N empty frames (no peer needed to reach the conversion)
+        let n: usize = it.next().unwrap().parse().unwrap();
+        let rt = tokio::runtime::Builder::new_multi_thread().worker_threads(2).enable_all().build().unwrap();
+        let r = std::panic::catch_unwind(std::panic::AssertUnwindSafe(|| {
+          rt.block_on(async {
+            let ctx = rzmq::Context::new().unwrap();
+            let s = ctx.socket(rzmq::SocketType::Push).unwrap();
+            let _ = s.set_option(rzmq::socket::options::SNDTIMEO, 0i32).await;
+            let mut frames = Vec::new();
+            for i in 0..n {
+              let mut m = rzmq::Msg::new();
+              if i + 1 < n {
+                m.set_flags(rzmq::MsgFlags::MORE);
+              }
+              frames.push(m);
+            }
+            let res = tokio::time::timeout(Duration::from_millis(500), s.send_multipart(frames)).await;
+            format!("{:?}", res)
+          })
+        }));
+        match r {
+          Ok(res) => println!("send_multipart returned {}", &res[..res.len().min(120)]),
+          Err(_) => println!("PANIC in send_multipart with {} frames", n),
+        }
+        std::process::exit(0);
+      }
       "inproc" => {
         use rzmq::SocketType;
         fn st(s: &str) -> SocketType {
